@@ -169,6 +169,12 @@ func concScenarios() []*mc.Scenario {
 			[][]cop{{W(0, 3), T(1), C}, {W(1, 2), W(4, 1), C}}, -1, -1),
 		concScenario(block("conc-block-ss2-cap3-exhaustion", "block", 2, 3, 0, 0, []int{0, 0}),
 			[][]cop{{W(0, 4), C}, {W(0, 4), T(2), W(2, 2)}}, -1, -1),
+		// Fragmented start (file 0 holds sectors 1 and 3, file 1 sector 2):
+		// a sector freed by one thread is reused by the other one, whose
+		// file may not show the old bytes.
+		concScenario(&config{name: "conc-block-ss2-cap4-reuse", stack: "block", ss: 2, capS: 4, preopen: []int{0, 0},
+			concSetup: []sop{{0, W(0, 2)}, {1, W(0, 2)}, {0, W(2, 2)}}},
+			[][]cop{{T(1), W(2, 2)}, {W(3, 1), T(3), C}}, -1, -1),
 		// Full stack; the device (3 sectors) is exhausted before the quota
 		// (8 bytes) is: partial writes release part of their reservation
 		// while the other thread allocates.
